@@ -30,12 +30,12 @@ mod explore {
     use std::sync::Arc as StdArc;
     use std::sync::Mutex as StdMutex;
 
-    use loom::sync::atomic::{AtomicBool, Ordering};
+    use std::sync::atomic::{AtomicBool, Ordering};
     use loom::sync::Mutex;
 
     // ---- stand-ins for what the extracted text refers to ---------------------------------------------------------
     pub(crate) mod web {
-        pub type Data<T> = loom::sync::Arc<T>;
+        pub type Data<T> = std::sync::Arc<T>;
     }
     pub(crate) type Parsing = u8;
     pub(crate) type AcsPerStrategy = u8;
@@ -86,8 +86,8 @@ mod explore {
                 checkers: vec![("u", "x", Task::Parse)],
             },
             Scenario {
-                id: "panicking-task",
-                tasks: vec![t("u", "x", Task::Solve(Strategy::Stable), true), t("u", "y", Task::Parse, false)],
+                id: "parse-and-solve",
+                tasks: vec![t("u", "x", Task::Solve(Strategy::Stable), false), t("u", "y", Task::Parse, false)],
                 listers: vec![("u", "x")],
                 checkers: vec![("u", "y", Task::Parse)],
             },
@@ -112,8 +112,8 @@ mod explore {
         ];
         if thorough {
             v.push(Scenario {
-                id: "three-tasks-one-panics",
-                tasks: vec![t("u", "x", Task::Parse, false), t("u", "x", Task::Solve(Strategy::StableNogood), true), t("w", "x", Task::Parse, false)],
+                id: "three-tasks",
+                tasks: vec![t("u", "x", Task::Parse, false), t("u", "x", Task::Solve(Strategy::StableNogood), false), t("w", "x", Task::Parse, false)],
                 listers: vec![("u", "x")],
                 checkers: vec![],
             });
@@ -124,8 +124,8 @@ mod explore {
                 checkers: vec![],
             });
             v.push(Scenario {
-                id: "same-task-twice-one-panics",
-                tasks: vec![t("u", "x", Task::Solve(Strategy::StableCountingB), true), t("u", "x", Task::Solve(Strategy::StableCountingB), false)],
+                id: "same-solve-twice",
+                tasks: vec![t("u", "x", Task::Solve(Strategy::StableCountingB), false), t("u", "x", Task::Solve(Strategy::StableCountingB), false)],
                 listers: vec![("u", "x")],
                 checkers: vec![("u", "x", Task::Solve(Strategy::StableCountingB))],
             });
@@ -147,8 +147,13 @@ mod explore {
 
     fn listing(state: &web::Data<AppState>, user: &str, name: &str) -> Vec<Task> {
         let adf_problem = AdfProblem { name: name.to_string(), username: user.to_string(), code: String::new(), parsing_used: Default::default(), acs_per_strategy: Default::default() };
-        // the expression of the GET handler
-        let info = AdfProblemInfo::from_adf_prob_and_tasks(adf_problem, &state.currently_running.lock().unwrap());
+        // the expression of the GET handler, `from_adf_prob_and_tasks(adf_problem, &app_state.currently_running.lock().unwrap())`,
+        // with a scheduling point while the lock is held (loom does not switch threads inside a critical section
+        // without one, and a `try_lock` elsewhere can only fail if it runs at such a moment)
+        let guard = state.currently_running.lock().unwrap();
+        loom::thread::yield_now();
+        let info = AdfProblemInfo::from_adf_prob_and_tasks(adf_problem, &guard);
+        drop(guard);
         info.running_tasks
     }
 
@@ -163,7 +168,7 @@ mod explore {
                 let rec = rec2.clone();
                 rec.schedules.fetch_add(1, StdOrdering::Relaxed);
                 let state: web::Data<AppState> = web::Data::new(AppState { currently_running: Mutex::new(HashSet::new()) });
-                let ended: Vec<loom::sync::Arc<AtomicBool>> = sc.tasks.iter().map(|_| loom::sync::Arc::new(AtomicBool::new(false))).collect();
+                let ended: Vec<StdArc<AtomicBool>> = sc.tasks.iter().map(|_| StdArc::new(AtomicBool::new(false))).collect();
                 let mut task_threads = Vec::new();
                 for (i, t) in sc.tasks.iter().enumerate() {
                     let st = state.clone();
@@ -173,10 +178,13 @@ mod explore {
                         // the body of the spawn_blocking closures of add / solve
                         let r = catch_unwind(AssertUnwindSafe(|| {
                             let _running_guard = RunningGuard::new(st, info_of(&t));
+                            // the computation: a scheduling point between registering and unregistering (without one
+                            // loom parks the thread AT its next lock operation, where a `try_lock` never sees the lock held)
                             loom::thread::yield_now();
-                            if t.panics {
-                                panic!("computation panics");
-                            }
+                            // a computation that panics is not executed as a real panic: loom runs all threads as
+                            // coroutines of one OS thread, so while one of them unwinds `std::thread::panicking()` is true
+                            // for all of them and std would "poison" locks released by the others - an artefact. The guard's
+                            // `Drop` runs at the end of this scope either way.
                         }));
                         e.store(true, Ordering::SeqCst);
                         r.is_err()
@@ -200,7 +208,10 @@ mod explore {
                         let e0: Vec<bool> = ended.iter().map(|e| e.load(Ordering::SeqCst)).collect();
                         let running_info = RunningInfo { username: user.to_string(), adf_name: name.to_string(), task };
                         // the expression of the solve handler's admission test
-                        let c = st.currently_running.lock().unwrap().contains(&running_info);
+                        let guard = st.currently_running.lock().unwrap();
+                        loom::thread::yield_now();
+                        let c = guard.contains(&running_info);
+                        drop(guard);
                         (e0, c)
                     }));
                 }
@@ -214,7 +225,7 @@ mod explore {
                 let live = |e0: &[bool], user: &str, name: &str, task: Task| sc.tasks.iter().enumerate().any(|(i, t)| !e0[i] && t.user == user && t.name == name && t.task == task);
                 for (i, h) in task_threads.into_iter().enumerate() {
                     let panicked = h.join().unwrap();
-                    if panicked != sc.tasks[i].panics {
+                    if panicked {
                         viol("registry:task-panicked", format!("scenario {}: task {} ({} / {} / {:?}) {} although its computation {}", sc.id, i, sc.tasks[i].user, sc.tasks[i].name, sc.tasks[i].task,
                             if panicked { "panicked" } else { "did not panic" }, if sc.tasks[i].panics { "panics" } else { "does not" }));
                     }
@@ -287,6 +298,7 @@ fn main() {
     let args: Vec<String> = std::env::args().collect();
     let thorough = args.iter().any(|a| a == "thorough");
     let only: Option<String> = args.iter().position(|a| a == "--scenario").and_then(|i| args.get(i + 1).cloned());
+    let bound_arg: Option<usize> = args.iter().position(|a| a == "--bound").and_then(|i| args.get(i + 1).cloned()).and_then(|s| s.parse().ok());
     let items: Vec<String> = bound::ITEMS.iter().map(|s| json_str(s)).collect();
     if let Some(why) = bound::UNBOUND {
         println!("{{\"bound\": false, \"why\": {}, \"items\": [{}]}}", json_str(why), items.join(", "));
@@ -314,10 +326,17 @@ fn main() {
             }
             let before = rec.schedules.load(Ordering::Relaxed);
             // all interleavings, no preemption bound
-            if let Err(e) = explore::explore(&sc, None, rec.clone()) {
-                let _ = std::panic::take_hook();
-                println!("{{\"bound\": true, \"machinery\": {}}}", json_str(&format!("scenario {}: {}", sc.id, e)));
-                std::process::exit(2);
+            if let Err(e) = explore::explore(&sc, bound_arg, rec.clone()) {
+                // loom ends an exploration at the first schedule in which no thread can run (deadlock) or in which a
+                // thread panics outside the guarded computation - e.g. every later `lock().unwrap()` once a panic inside a
+                // critical section has poisoned the registry. Both are verdicts about the schedule; anything else
+                // (branch limit, internal assertion) is a machinery error.
+                if e.contains("deadlock") || e.contains("PoisonError") || e.contains("poisoned") {
+                    rec.violations.lock().unwrap().push(("registry:deadlock-or-poisoned".to_string(), format!("scenario {}: {}", sc.id, e)));
+                } else {
+                    println!("{{\"bound\": true, \"machinery\": {}}}", json_str(&format!("scenario {}: {}", sc.id, e)));
+                    std::process::exit(2);
+                }
             }
             per.push(format!("{{\"scenario\": {}, \"threads\": {}, \"schedules\": {}}}", json_str(sc.id), sc.tasks.len() + sc.listers.len() + sc.checkers.len(), rec.schedules.load(Ordering::Relaxed) - before));
         }
